@@ -119,10 +119,27 @@ class TseitinTransformation:
     def goal2intcnf(self, goal: z3.Goal) -> list[list[int]]:
         cnf = []
         for expr in goal:
-            if z3.is_or(expr):
-                cnf.append([self.expr_to_signed_id(x) for x in expr.children()])
-            else:
-                cnf.append([self.expr_to_signed_id(expr)])
+            literals = expr.children() if z3.is_or(expr) else [expr]
+            clause = []
+            satisfied = False
+            for literal in literals:
+                atom = literal.children()[0] if z3.is_not(literal) else literal
+                if z3.is_true(atom) or z3.is_false(atom):
+                    # the tactic leaves Boolean constants in place; they are not SAT variables
+                    if z3.is_true(atom) != z3.is_not(literal):
+                        satisfied = True
+                    continue
+                clause.append(self.expr_to_signed_id(literal))
+            if satisfied:
+                continue
+            if not clause:
+                # constant-false clause: keep the CNF unsatisfiable
+                pool = cast(IDPool, self.epistemic_state["pool"])  # type: ignore[assignment]
+                false_id = pool.id("__const_false__")
+                cnf.append([false_id])
+                cnf.append([-false_id])
+                continue
+            cnf.append(clause)
         return cnf
 
     """
